@@ -63,7 +63,7 @@ from apischema.serialization.serialized_methods import (
     get_serialized_methods,
 )
 from apischema.type_names import TypeNameFactory, get_type_name
-from apischema.types import AnyType, UndefinedType
+from apischema.types import AnyType, Undefined, UndefinedType
 from apischema.typing import get_args, get_origin, is_typed_dict, is_union
 from apischema.utils import (
     context_setter,
@@ -239,13 +239,16 @@ class SchemaBuilder(
         if not required and "default" not in result:
             result = JsonSchema(result)
             with suppress(Exception):
-                result["default"] = serialize(
-                    field.type,
-                    field.get_default(),
-                    fall_back_on_any=False,
-                    check_type=True,
-                    conversion=field.serialization,
-                )
+                default = field.get_default()
+                # Undefined (e.g. default of non-required TypedDict keys) is not a value
+                if default is not Undefined:
+                    result["default"] = serialize(
+                        field.type,
+                        default,
+                        fall_back_on_any=False,
+                        check_type=True,
+                        conversion=field.serialization,
+                    )
         return result
 
     def _object_schema(self, cls: type, field: ObjectField) -> JsonSchema:
